@@ -179,6 +179,14 @@ func genExtra(r *rand.Rand, depth int) any {
 // genDoc: a document for the current schema. Values of fields in unique indexes
 // come from a wide domain unless dup != nil (then the unique tuple of dup is copied).
 func (s *scen) genDoc(r *rand.Rand, dup *mdoc) *structpb.Struct {
+	return s.genDocCopying(r, dup, nil)
+}
+
+// genDocCopying: like genDoc, but only the unique-index fields named in only (nil = all of them) are
+// copied from dup; the other unique-index fields get fresh values from the wide domain. Documents that
+// share a proper part of another document's unique tuple are legitimate; a later write that completes
+// the tuple is not.
+func (s *scen) genDocCopying(r *rand.Rand, dup *mdoc, only map[string]bool) *structpb.Struct {
 	m := map[string]any{}
 	if r.IntN(25) == 0 {
 		m["a"] = "scalar-where-a-struct-is-expected"
@@ -193,7 +201,7 @@ func (s *scen) genDoc(r *rand.Rand, dup *mdoc) *structpb.Struct {
 			continue // undeclared pool fields appear in some documents (they matter once the field is added)
 		}
 		v := s.genValue(r, fs, uniq[fs.Name])
-		if uniq[fs.Name] && dup != nil && f != nil {
+		if uniq[fs.Name] && dup != nil && f != nil && (only == nil || only[fs.Name]) {
 			if dv, ok := extract(dup.last().doc, fs.Name); ok {
 				v = toAny(dv)
 			} else {
